@@ -104,3 +104,32 @@ Theorem C16_builder_epochs_run_to_end : forall l l' ch c n tb,
     /\ f_in s' = dur c /\ f_time s' = tb + dur c /\ time_left s' = 0.
 Proof. exact builder_epochs_run_to_end. Qed.
 Print Assumptions C16_builder_epochs_run_to_end.
+
+(* ---- one builder used for a whole script of set_epochs / set_duration / build calls ---- *)
+Theorem C16_builder_script_built_ok : forall ops st l ch,
+  st_ok st -> In (EBuilt l ch) (brun st ops) ->
+  valid l = true /\ ch = chunk_len l
+  /\ forall c, In c (tl l) ->
+       1 <= ch /\ (ch | dur c)
+       /\ forall n tb, exists s', run_epoch (to_state c n tb) ch = Some s' /\ time_left s' = 0.
+Proof. exact builder_script_built_ok. Qed.
+Print Assumptions C16_builder_script_built_ok.
+
+Theorem C16_builder_script_history_independent : forall st l r,
+  valid l = true ->
+  brun st (BSetEpochs l :: BBuild :: r) = ESet true :: EBuilt l (chunk_len l) :: brun (Some l) r.
+Proof. exact builder_script_history_independent. Qed.
+Print Assumptions C16_builder_script_history_independent.
+
+Theorem C16_builder_script_set_duration_history_independent : forall st w p t thp thw r,
+  admissible w p default_init t default_base thp thw ->
+  exists l, stan_epochs w p default_init t default_base thp thw = SOk l
+    /\ brun st (BSetDuration w p t thp thw :: BBuild :: r)
+       = ESet true :: EBuilt l (chunk_len l) :: brun (Some l) r.
+Proof. exact builder_script_set_duration_history_independent. Qed.
+Print Assumptions C16_builder_script_set_duration_history_independent.
+
+Theorem C16_builder_script_rejected_keeps : forall st l r,
+  valid l = false -> brun st (BSetEpochs l :: r) = ESet false :: brun st r.
+Proof. exact builder_script_rejected_keeps. Qed.
+Print Assumptions C16_builder_script_rejected_keeps.
